@@ -26,7 +26,7 @@ RULE = ("seeded requests: method tokens, origin-form targets and the 'target' ex
         "HTTP/1.1 also through a forwarding proxy (absolute-form target compared with the URL)")
 ASSUMPTIONS = ["HTTP/1.1 wire decoded by the harness parser (no h11); HTTP/2 by the h2 library in the server role",
                "identical duplicate Content-Length values may be merged (protocol-equivalent)"]
-REQUIRED = ["requests_legal", "oracle_wire", "requests_illegal", "oracle_illegal", "reuse_checked"]
+REQUIRED = ["requests_legal", "oracle_wire", "requests_illegal", "oracle_illegal", "reuse_checked", "retransmissions_checked"]
 
 HOSTS = ["o.test", "2001:db8::3", "o.test", "10.2.3.4", "o.test"]
 METHODS = ["GET", "POST", "PUT", "DELETE", "PATCH", "OPTIONS", "FOO", "M-SEARCH", "get", "X_Y.Z!"]
@@ -152,7 +152,8 @@ def run_case(case):
     h2 = proto == "h2"
     viol = []
     cnt = {"oracle_caller_objects": 0, "requests_legal": 0, "requests_illegal": 0, "oracle_wire": 0, "oracle_illegal": 0, "reuse_checked": 0,
-           "body_bytes_checked": 0, "sequences": 0, "via_forward_proxy": 0, "direct": 0, "ip_literal_hosts": 0, "non_default_port": 0}
+           "body_bytes_checked": 0, "sequences": 0, "via_forward_proxy": 0, "direct": 0, "ip_literal_hosts": 0, "non_default_port": 0,
+           "goaway_sequences": 0, "retransmissions_checked": 0}
     sigs = set()
     sample = {}
 
@@ -174,7 +175,14 @@ def run_case(case):
             port = dflt_port if (seq_no + case["seed"] // 7) % 3 else dflt_port + 8000
             via_proxy = (not h2) and (seq_no + case["seed"] // 3) % 4 == 0
             base = uhost if port == dflt_port else f"{uhost}:{port}"
-            origin = endpoints.Origin(net, host, port, tls=h2, alpn=["h2"] if h2 else None)
+            # every fourth HTTP/2 sequence: the server refuses the second request of each connection with a GOAWAY that
+            # names the stream before it, so that request is transmitted twice - "every transmission attempt"
+            goaway = h2 and (seq_no + case["seed"] // 5) % 4 == 0
+            if goaway:
+                seq = [x for x in seq if not x["illegal"]]
+                cnt["goaway_sequences"] += 1
+            origin = endpoints.Origin(net, host, port, tls=h2, alpn=["h2"] if h2 else None,
+                                      h2_script={"actions": [{"when": ("head", 1), "do": "goaway", "last": "prev"}]} if goaway else None)
             if via_proxy:
                 px = endpoints.HTTPProxy(net, "proxy.test", 3128, origins=[origin])
                 pool = mk_pool(flavor, net, proxy={"url": "http://proxy.test:3128"}, http2=h2)
@@ -261,11 +269,32 @@ def run_case(case):
                     continue
                 cnt["requests_legal"] += 1
                 sigs.add(f"{proto}|legal|{form}|{'px' if via_proxy else 'direct'}|{'v6' if ':' in host else 'v4' if host[0].isdigit() else 'dns'}|host:{q['host_kind']}|fr:{q['framing_kind']}|{q['body_kind']}|pos{min(pos, 1)}")
+                if goaway and out.kind == "exc" and isinstance(out.exc, httpcore.RemoteProtocolError) \
+                        and any(getattr(x, "refused_by_goaway", False) for x in wire_reqs[before_reqs:]):
+                    # the refusal is reported instead of a second transmission: always so for a body that can be read only
+                    # once; for other bodies when the frames that follow the GOAWAY in the same read (credit for the body
+                    # that is still being uploaded) make the h2 package reject the whole read, GOAWAY included
+                    cnt["goaway_not_resent"] = cnt.get("goaway_not_resent", 0) + 1
+                    if len(wire_reqs[before_reqs:]) != 1:
+                        v("failed-request-was-resent", f"{len(wire_reqs[before_reqs:])} transmissions of a request that failed", ctx)
+                    continue
                 if out.kind != "ok":
                     v(f"legal-request-failed:{proto}:" + (exc_name(out.exc) if out.kind == "exc" else out.kind),
                       f"legal request not answered: {out!r}", ctx)
                     break
                 new_reqs = wire_reqs[before_reqs:]
+                if goaway and len(new_reqs) > 1:
+                    # earlier transmission attempts, refused by GOAWAY: same head, and as much of the body as got out
+                    final = [x for x in new_reqs if not getattr(x, "refused_by_goaway", False)]
+                    for x in new_reqs:
+                        if x in final:
+                            continue
+                        cnt["retransmissions_checked"] += 1
+                        if not final or x.h2_headers != final[0].h2_headers:
+                            v("retransmission-head-differs", f"{x.h2_headers!r} vs {final and final[0].h2_headers!r}", ctx)
+                        elif not bytes(final[0].body).startswith(bytes(x.body)):
+                            v("retransmission-body-not-a-prefix", f"{len(x.body)} bytes", ctx)
+                    new_reqs = final
                 if len(new_reqs) != 1:
                     v("wire-request-count", f"{len(new_reqs)} request heads on the wire for one call", ctx)
                     break
